@@ -20,10 +20,13 @@ abbrev Hdr := List (String × List String)
 
 def singleDef : List String := ["VN", "TS"]
 
-def lookup (h : Hdr) (n : String) : Option (List String) := (h.find? (·.1 == n)).map (·.2)
+def lookup : Hdr → String → Option (List String)
+  | [], _ => none
+  | p :: ps, n => if p.1 = n then some p.2 else lookup ps n
 
-def setVals (h : Hdr) (n : String) (vs : List String) : Hdr :=
-  h.map (fun p => if p.1 == n then (n, vs) else p)
+def setVals : Hdr → String → List String → Hdr
+  | [], _, _ => []
+  | p :: ps, n, vs => if p.1 = n then (n, vs) :: setVals ps n vs else p :: setVals ps n vs
 
 /-- `Multiline.add` for one tag -/
 def addTag (t : String × String) : M Hdr String Unit :=
